@@ -11,6 +11,8 @@ with an oracle written from the property statement (split the source on newlines
 number from start_line, clip the range) that shares nothing with the Lean model.
 """
 import dataclasses
+
+import lib_syntax_measure
 import textwrap
 import io
 import itertools
@@ -33,6 +35,7 @@ except Exception:  # pragma: no cover
 STRIPNL = int(os.environ.get("VERIF_C17_STRIPNL", "0"))          # 1: get_lexer_by_name(name) keeps Pygments' stripnl=True; 0: repaired (stripnl=False; fix 92fb879)
 RANGE_POP = int(os.environ.get("VERIF_C17_RANGE_POP", "0"))      # 1: `text.split("\n")` / guides `.split("\n")`: a blank line that ends the range is lost, an empty selection with guides shows a row; 0: repaired (fix bc6c38f)
 SKIP_RAISES = int(os.environ.get("VERIF_C17_SKIP_RAISES", "0"))  # 1: bare next(tokens) in tokens_to_spans -> RuntimeError past the end; 0: repaired (break; fix 1d638e8)
+MEASURE_SHORT = int(os.environ.get("VERIF_C17_MEASURE_SHORT", "0"))  # 1: __rich_measure__ with line numbers + code_width reports a maximum one cell short; 0: repaired (fix 51eccb0)
 
 GUIDE = "│"
 CTL = {8, 11, 12, 13}
@@ -677,7 +680,7 @@ def end_to_end(ctx, c, res):
     console = Console(file=io.StringIO(), width=c.width, color_system=c.color_system, force_terminal=False, legacy_windows=False)
     try:
         m = syn.__rich_measure__(console, c.width)
-        ctx.case("syn_measure", [enc_str(c.code), enc_bool(c.line_numbers), c.start_line, enc_opt(c.code_width), c.width],
+        ctx.case("syn_measure", [enc_str(c.code), enc_bool(c.line_numbers), c.start_line, enc_opt(c.code_width), c.width, MEASURE_SHORT],
                  "%d,%d" % (m.minimum, m.maximum), shape="numbers%d-cw%s" % (c.line_numbers, "y" if c.code_width is not None else "n"))
         if res[0] == "ok" and m.maximum >= 1 and not c.no_wrap:
             c2 = Case(**{**c.as_dict(), "width": m.maximum})
@@ -1491,6 +1494,7 @@ def run(ctx):
     fit_correspondence(ctx, rng)
     syntax_cases(ctx, rng)
     from_path_cases(ctx, rng)
+    lib_syntax_measure.run(ctx, 0.4 if ctx.quick else 4.0)  # C09's clause for Syntax + the correspondence of __rich_measure__ with measureV
     history_cases(ctx, rng)
     traceback_cases(ctx, rng)
     ctx.rule = (
@@ -1542,8 +1546,9 @@ MANIFEST = {
     "EXACTLY source lines a..b clipped to the lines that exist, blank lines that end the range included, numbered from start_line+max(0,a-1)); "
     "lines_are_source_lines (numbered, without a range: all source lines, at most ONE empty line at the very end of the source missing) / "
     "plain_lines_are_source_lines (un-numbered, without a range: exactly the source lines); rows_are_numbered_selection; numbers_are_line_numbers; gutter_wide_enough; fitted_line_is_line; "
-    "measure_maximum_fits_without_numbers + measure_maximum_one_short_with_numbers (the C09 clause for Syntax: holds without line numbers, fails "
-    "by one cell with line numbers and an explicit code_width — witness); guides_only_overdraw_indent (as many lines out as in); "
+    "measure_maximum_sound / measure_maximum_sound_auto / measure_maximum_fits_without_numbers / measure_minimum_le_maximum (the C09 clause "
+    "for Syntax, repaired variant of __rich_measure__: rows take at most the reported maximum, exactly it on a padded background; re-exported "
+    "in Props/C09.lean) + old_measure_maximum_one_short_with_numbers (as found: one cell short with line numbers and an explicit code_width); guides_only_overdraw_indent (as many lines out as in); "
     "traceback_marks_failing_line (exactly one marked row, numbered lineno, showing line lineno, for every extra_lines / leading blank lines / "
     "file length / indent guides); render_history_independent + stack_cache_transparent (what a traceback shows depends only on the files as "
     "they are when it is rendered); render_pure / render_pure_rows (any number of renders of ONE Syntax object answer what a fresh one "
@@ -1566,7 +1571,7 @@ MANIFEST = {
     "stripping, or code_width < 0 with such a line; (4) rendered styles are checked by direct evaluation (token styles from the real lexer and "
     "theme), the model carries them only up to Syntax.highlight; (5) the one empty string a final newline leaves behind, and without a range one "
     "empty last line of the source, may be missing — the statement's 'blank lines at the very end aside'; (6) not part of C17's statement, "
-    "observed only: __rich_measure__ reports a maximum one cell too small with line numbers + code_width; the SyntaxError offset marker counts "
+    "judged by C09 (harness/lib_syntax_measure.py, slug syntax-measure-one-short), only counted here: __rich_measure__ reports a maximum one cell too small with line numbers + code_width (variant flag MEASURE_SHORT); observed only: the SyntaxError offset marker counts "
     "characters, not cells (tabs / wide characters shift it). Trusted: Lean kernel; propext/Classical.choice/Quot.sound; the harness; C13's "
     "cell-width model; C02/C05's Text.wrap model. Three genuine defects found, all fixed in /repo: stripnl=True drops leading blank lines "
     "(fix 92fb879), the bare next() past the end raises (fix 1d638e8), and a blank line that ends a line_range is lost / an empty selection under "
